@@ -184,6 +184,21 @@ CHECKS["C19"] = dict(
     technique="TLA+ spec (ScoresProps over exact rationals) model-checked with TLC; TLC-generated cases replayed into "
               "typhon.retrieval.scores")
 
+CHECKS["C14"] = dict(
+    text="PARTIAL (rational clauses only). TrapzProps.tla defines the trapezoid sum on nested sequences of rank 1-3 along "
+         "every axis; TLC model-checks linearity, additivity at grid points, sign reversal and default spacing and emits "
+         "integer arrays with their (doubled) integrals, replayed on integrate_column with exact equality (int and float "
+         "dtype, negative axis, default spacing). AtmosCases.tla gives IWV in its hydrostatic and general form, layer "
+         "heights of pressure2height and the CRH laws (1 for a saturated profile, linear in q) as exact rationals for "
+         "stand-in constants; the real functions are evaluated on the same floats with typhon.constants / the saturation "
+         "function patched (canary-guarded), to 1e-12.",
+    ref="DESIGN.md §5 C14, §6",
+    note="NOT decided by this technique (no exp/log in TLA+): convergence of the two IWV formulations, the isothermal "
+         "law z = (RT/g) ln(p0/p), standard-atmosphere interpolation. Trusted: TLC, Rat/TrapzProps/AtmosCases, the float "
+         "evaluation of small rationals.",
+    technique="TLA+ spec (TrapzProps/AtmosCases over integers and exact rationals) model-checked with TLC; TLC-generated "
+              "cases replayed into typhon.math.integrate_column and typhon.physics.atmosphere")
+
 NOT_APPLICABLE = {
     "C07": "Every clause concerns floating-point accuracy of sin/cos/arctan2/sqrt compositions or convergence of a "
            "fixed-point iteration over a continuous domain; TLA+/TLC has no reals or transcendental functions and there "
